@@ -71,7 +71,13 @@ def leaf_values(info, rng, dim, zero, use_mag):
         # soundness: with polarisation on, a component whose magnitudes are all zero is computed
         # by the magnetic kernel inside the mixture but by the plain kernel alone (sasmodels'
         # documented magnetic on/off switch), so every SLD-bearing component gets a magnitude
-        if m0 and use_mag:
+        if m0 and use_mag == "pure-unmagnetised":
+            # a component without magnetisation in a polarised mixture (pure spin state, see below): magnitudes
+            # zero, but angles set (tied to another component's, say) - they must not matter
+            for nm in m0:
+                pars[nm[:-3] + "_mtheta"] = rng.choice([20.0, 60.0])
+                pars[nm[:-3] + "_mphi"] = rng.choice([10.0, 80.0])
+        elif m0 and use_mag:
             # one magnitude on a randomly chosen SLD (for vector SLDs often a later element), sometimes two
             ctl = {q.length_control for q in P.kernel_parameters if q.length_control}
             nmax = min([int(dflt.get(c, 1)) for c in ctl] or [99])
@@ -100,9 +106,19 @@ def run(sc):
         q = [np.array([0.0, 0.005, 0.02, 0.08, 0.2])] if sc.get("zero") else [np.array([0.005, 0.02, 0.08, 0.2])]
     spin = {"up_frac_i": rng.choice([0.0, 0.25]), "up_frac_f": rng.choice([0.0, 0.75]),
             "up_theta": rng.choice([90.0, 30.0]), "up_phi": rng.choice([0.0, 40.0])}
+    # In a pure non-flip spin state (up_frac_i = up_frac_f in {0, 1}) a component without magnetisation scatters
+    # as it does alone; one component may then be left unmagnetised (with mixed states the library weights an
+    # unmagnetised component by the non-flip fractions only, which the property does not speak about).
+    pure = bool(use_mag) and rng.random() < 0.4
+    if pure:
+        v = rng.choice([0.0, 1.0])
+        spin["up_frac_i"] = spin["up_frac_f"] = v
+    leaf_counter = [0]
+    unmag_leaf = rng.randrange(0, 4) if pure else -1
     kernel = None
     # the same kernel object is called twice, with other values and other dispersity meshes the second time
     for rep in (0, 1):
+        leaf_counter[0] = 0
         ev = {"tid": sc["tid"] + 500000 * rep, "ev": "Mix", "expr": expr, "dim": dim, "raised": "", "out": [], "names": [],
               "again": bool(rep)}
         try:
@@ -137,7 +153,10 @@ def run(sc):
                 # leaf (plain model or P@S): evaluate alone with its own parameter names
                 own = expand(node_info)
                 assert len(own) == len(names), (own, names)
-                lp = leaf_values(node_info, rng, dim, sc.get("zero"), use_mag)
+                k_leaf = leaf_counter[0]
+                leaf_counter[0] += 1
+                lp = leaf_values(node_info, rng, dim, sc.get("zero"),
+                                 "pure-unmagnetised" if (use_mag and k_leaf % 4 == unmag_leaf and k_leaf > 0) else use_mag)
                 ren = dict(zip(own, names))
                 leaf_call = dict(lp, scale=1.0, background=0.0)
                 if use_mag and any(p.name == "up_frac_i" for p in node_info.parameters.call_parameters):
